@@ -335,19 +335,28 @@ def _queue_case(seed):
     srcs[1].next(rng.randint(1, 9))
     srcs[2].next(3)
     np.random.seed(rng.randint(0, 99))
+    # a few samples into the first trial, clone; then read original and clone ALTERNATELY with different chunk
+    # sizes (so that chunk boundaries cut through trials), writing into every returned buffer after copying it
+    first = rng.randint(1, 5)
+    head = q.pop_buffer(first)
+    got, gotc = [head.copy()], [head.copy()]
+    head[:] = -9.0
     c = q.clone()
-    got, gotc = [], []
-    left = 80
-    while left > 0:
-        n = min(left, rng.randint(1, 17))
-        got.append(q.pop_buffer(n))
-        np.random.uniform(size=rng.randint(0, 4))
-        left -= n
-    leftc = 80
-    while leftc > 0:
-        n = min(leftc, rng.randint(1, 23))
-        gotc.append(c.pop_buffer(n))
-        leftc -= n
+    left, leftc = 80 - first, 80 - first
+    while left > 0 or leftc > 0:
+        if left > 0 and (leftc == 0 or rng.random() < 0.5):
+            n = min(left, rng.randint(1, 17))
+            buf = q.pop_buffer(n)
+            got.append(buf.copy())
+            buf[:] = -7.0                      # the caller owns what it was handed
+            np.random.uniform(size=rng.randint(0, 4))
+            left -= n
+        else:
+            n = min(leftc, rng.randint(1, 23))
+            buf = c.pop_buffer(n)
+            gotc.append(buf.copy())
+            buf[:] = -8.0
+            leftc -= n
     got = np.concatenate(got)
     gotc = np.concatenate(gotc)
     fail = None
